@@ -13,6 +13,18 @@ def t2_write(sx, S, prefix, rsv, oldlens, lens, long):
     return ndefflow.roundtrip(sx, w, n, prop="C03")
 
 
+def t2_reread(sx, S, prefix, rsv, oldlen, lens):
+    w = worlds.T2World(sx, S, prefix, [tuple(r) for r in rsv], oldlen, old_lt_80=True)
+    n = sx.pick("n", [x for x in lens_for(w.cap, lens)])
+    return ndefflow.reread_then_write(sx, w, n)
+
+
+def t1_reread(sx, hr, size, prefix, rsv, oldlen, lens):
+    w = worlds.T1World(sx, tuple(hr), size, prefix, [tuple(r) for r in rsv], oldlen, old_lt_80=True)
+    n = sx.pick("n", [x for x in lens_for(w.cap, lens)])
+    return ndefflow.reread_then_write(sx, w, n)
+
+
 def t2_format(sx, S, prefix, rsv, oldlens, wipe):
     oldlen = sx.pick("oldlen", oldlens)
     w = worlds.T2World(sx, S, prefix, [tuple(r) for r in rsv], oldlen, old_lt_80=True)
@@ -72,6 +84,17 @@ T1 = [("topaz", (0x11, 0x48), 120, "", []),
 
 def partitions(tier):
     parts = []
+    # history: has_changed interrupted at every command, then a write through
+    # the same NDEF object; reserved range inside the message / lock bytes
+    for nm, prefix, rsv in (("M", "M", [(30, 4)]), ("LM", "LM", [(64, 2), (40, 3)])):
+        parts.append(dict(name="t2:48:%s:reread" % nm, fn="t2_reread",
+                          params=dict(S=48, prefix=prefix, rsv=rsv, oldlen=5, lens=[3, 20, "cap"])))
+    parts.append(dict(name="t1:static-m:reread", fn="t1_reread",
+                      params=dict(hr=(0x11, 0x48), size=120, prefix="M", rsv=[(40, 8)], oldlen=5,
+                                  lens=[3, 40, "cap"])))
+    parts.append(dict(name="t1:dynamic:reread", fn="t1_reread",
+                      params=dict(hr=(0x12, 0x00), size=512, prefix="NLM", rsv=[(122, 6), (200, 9)],
+                                  oldlen=5, lens=[3, 200])))
     for i, (prefix, rsv) in enumerate(T2_LAYOUTS_48):
         if tier == "quick" and prefix in THOROUGH_ONLY:
             continue
@@ -122,7 +145,7 @@ def partitions(tier):
     return parts
 
 
-MUST_REACH = ["format_wipe", "format_no_wipe", "rsv_inside_message", "rsv_beyond_data_area",
+MUST_REACH = ["reread_with_outage", "write_after_failed_reread_refused", "format_wipe", "format_no_wipe", "rsv_inside_message", "rsv_beyond_data_area",
               "rsv_at_end_of_data_area", "rsv_before_ndef_tlv"]
 BOUNDS = {"quick": "the Type 1/2 structured layouts of C01 (incl. the 296-byte Type 1 layouts with 257/258 bytes left and 216 guard bytes behind the declared area), Type 3 (four triples, emulation too) and Type 4 (6 guard bytes behind the declared file) worlds; message lengths from boundary sets up to capacity+8; format with/without a symbolic wipe byte; all other memory symbolic",
           "thorough": "as quick with every length for 48-byte areas and larger data areas"}
